@@ -75,32 +75,47 @@ def check(c):
 
     # ---- LHS expansion
     fa = c.func('graph_parser', 'GraphParser._families_all_to_all')
-    # member loop iterates the whole family
-    loops = [n for n in ast.walk(fa.node) if isinstance(n, ast.For)
-             and norm(n.iter) in ('self.family_map[name]',)]
-    c.floor('C15.member-loop', 'for mem in self.family_map[name]',
-            len(loops), 1)
-    for lp in loops:
-        c.guard('C15.member-loop', lp, ['(name, trig) in family_trig_map'],
-                fa)
-        mem = norm(lp.target)
-        apps = [n for n in ast.walk(lp) if isinstance(n, ast.Call)
-                and isinstance(n.func, ast.Attribute)
-                and n.func.attr == 'append']
-        exprs = [a for a in apps if norm(a.func.value) == 'm_expr']
-        ok = (len(exprs) == 1 and not [
-            x for x in ast.walk(lp) if isinstance(x, (ast.Continue, ast.Break,
-                                                      ast.If))])
-        c.ob('C15.member-loop', c.key(lp, fa) + ' every member contributes',
-             ok, c.where(lp, fa), '')
-        if exprs:
-            v = exprs[0].args[0]
-            parts = [norm(x.value) for x in v.values
-                     if isinstance(x, ast.FormattedValue)] if isinstance(
-                v, ast.JoinedStr) else []
-            c.ob('C15.member-loop', c.key(exprs[0], fa) + ' member term',
-                 parts == [mem, 'offset', 'ttype'], c.where(exprs[0], fa),
-                 f'term built from {parts}')
+    # one term per member of the whole family, as a loop with append or as a
+    # comprehension, over `self.family_map[name]` or a local alias of it
+    def is_family(e):
+        if norm(e) == 'self.family_map[name]':
+            return True
+        if isinstance(e, ast.Name):
+            defs = [n for n in ast.walk(fa.node) if isinstance(n, ast.Assign)
+                    and norm(n.targets[0]) == e.id]
+            return len(defs) == 1 and norm(
+                defs[0].value) == 'self.family_map[name]'
+        return False
+    terms = []     # (anchor node, loop variable, term expr, unfiltered?)
+    for n in ast.walk(fa.node):
+        if isinstance(n, ast.For) and is_family(n.iter):
+            apps = [x for x in ast.walk(n) if isinstance(x, ast.Call)
+                    and isinstance(x.func, ast.Attribute)
+                    and x.func.attr == 'append'
+                    and norm(x.func.value) == 'm_expr']
+            plain = not [x for x in ast.walk(n) if isinstance(
+                x, (ast.Continue, ast.Break, ast.If))]
+            for x in apps:
+                terms.append((n, norm(n.target), x.args[0], plain))
+        elif isinstance(n, ast.Assign) and norm(n.targets[0]) == 'm_expr' \
+                and isinstance(n.value, ast.ListComp) and len(
+                    n.value.generators) == 1 and is_family(
+                    n.value.generators[0].iter):
+            g = n.value.generators[0]
+            terms.append((n, norm(g.target), n.value.elt, not g.ifs))
+    c.exactly('C15.member-loop', 'member terms built from '
+              'self.family_map[name]', len(terms), 1)
+    for anchor, mem, v, plain in terms:
+        c.guard('C15.member-loop', anchor,
+                ['(name, trig) in family_trig_map'], fa)
+        c.ob('C15.member-loop', c.key(anchor, fa)[:110] + ' every member '
+             'contributes', plain, c.where(anchor, fa), '')
+        parts = [norm(x.value) for x in v.values
+                 if isinstance(x, ast.FormattedValue)] if isinstance(
+            v, ast.JoinedStr) else []
+        c.ob('C15.member-loop', c.key(anchor, fa)[:110] + ' member term',
+             parts == [mem, 'offset', 'ttype'], c.where(anchor, fa),
+             f'term built from {parts}')
     # the member trigger type / semantics come from the map
     unpack = [n for n in ast.walk(fa.node) if isinstance(n, ast.Assign)
               and isinstance(n.targets[0], ast.Tuple)
@@ -108,25 +123,47 @@ def check(c):
     c.floor('C15.joiner', 'ttype, mem_all = family_trig_map[(name, trig)]',
             len(unpack), 1)
     allv = norm(unpack[0].targets[0].elts[1]) if unpack else 'mem_all'
+    # members are joined with & for -all and | for -any: the separator is a
+    # literal at the join, or a local bound to the literal under the test
     joins = [n for n in ast.walk(fa.node) if isinstance(n, ast.Call)
              and isinstance(n.func, ast.Attribute) and n.func.attr == 'join'
-             and isinstance(n.func.value, ast.Constant)]
-    amp = [j for j in joins if j.func.value.value == '&']
-    bar = [j for j in joins if j.func.value.value == '|']
-    c.exactly('C15.joiner', "'&'.join sites", len(amp), 1)
-    c.exactly('C15.joiner', "'|'.join sites", len(bar), 1)
-    for j in amp:
-        c.guard('C15.joiner', j, [allv], fa, what='AND only for -all;')
-    for j in bar:
-        c.guard('C15.joiner', j, [f'!{allv}'], fa, what='OR only for -any;')
-    for j in amp + bar:
-        c.ob('C15.joiner', c.key(j, fa) + ' joins the member terms',
-             norm(j.args[0]) == 'm_expr', c.where(j, fa), '')
-        st = c.idx.stmt_of(j)
-        c.ob('C15.joiner', c.key(j, fa) + ' parenthesised',
-             isinstance(st, ast.Assign) and isinstance(st.value, ast.BinOp)
-             and isinstance(st.value.left, ast.Constant)
-             and st.value.left.value == '(%s)', c.where(j, fa), '')
+             and n.args and norm(n.args[0]) == 'm_expr']
+    c.floor('C15.joiner', 'join of the member terms', len(joins), 1)
+    seen_ops = set()
+    for j in joins:
+        r = j.func.value
+        sites = []
+        if isinstance(r, ast.Constant):
+            sites.append((r.value, j))
+        elif isinstance(r, ast.Name):
+            for d in ast.walk(fa.node):
+                if isinstance(d, ast.Assign) and norm(d.targets[0]) == r.id:
+                    sites.append((d.value.value if isinstance(
+                        d.value, ast.Constant) else norm(d.value), d))
+        c.ob('C15.joiner', c.key(j, fa) + ' separator is & or |',
+             bool(sites) and all(op in ('&', '|') for op, _n in sites),
+             c.where(j, fa), str([op for op, _n in sites]))
+        for op, node in sites:
+            seen_ops.add(op)
+            if op == '&':
+                c.guard('C15.joiner', node, [allv], fa,
+                        what='AND only for -all;')
+            elif op == '|':
+                c.guard('C15.joiner', node, [f'!{allv}'], fa,
+                        what='OR only for -any;')
+        par = c.idx.parent.get(id(j))
+        wrapped = (isinstance(par, ast.BinOp) and isinstance(
+            par.op, ast.Mod) and isinstance(par.left, ast.Constant)
+            and par.left.value == '(%s)') or (
+            isinstance(par, ast.FormattedValue) and isinstance(
+                c.idx.parent.get(id(par)), ast.JoinedStr) and norm(
+                c.idx.parent[id(par)]).startswith("f'(")
+            and norm(c.idx.parent[id(par)]).endswith(")'"))
+        c.ob('C15.joiner', c.key(j, fa) + ' parenthesised', wrapped,
+             c.where(j, fa), '')
+    c.ob('C15.joiner', f'{fa.fq} :: both & (all) and | (any) are produced',
+         seen_ops == {'&', '|'}, c.where(fa.node, fa), str(sorted(
+             map(str, seen_ops))))
     # regex built from the family name must be escaped (F2)
     for call, p in taint.regex_calls(c, fa):
         for node, kind in taint.fragments(c, p):
